@@ -395,3 +395,14 @@ Definition getcout (v : uval) : cycle_out :=
 Definition e_run_conn (v : uval) : uval := vlist vcout (run_conn (getbool (arg 0 v)) (map getcin (getL (arg 1 v)))).
 (* [cycles in; observed cycles out] *)
 Definition e_P11 (v : uval) : uval := vbool (P11 (map getcin (getL (arg 0 v))) (map getcout (getL (arg 1 v)))).
+
+(* ---- C12 ---- *)
+From PV Require Import Model.Shutdown Spec.C12.
+Definition getcstate (v : uval) : cstate :=
+  mkCS (getbool (arg 0 v)) (getnat (arg 1 v)) (getnat (arg 2 v)) (getbool (arg 3 v)) (getbool (arg 4 v)) (getnat (arg 5 v))
+       (getnatpairs (arg 6 v)) (getnatpairs (arg 7 v)).
+Definition vcresult (r : cresult) : uval := VL [vbool (r_returns r); vN (r_seconds r); vnat (r_left r); vbool (r_writer_closed r)].
+Definition e_close (v : uval) : uval := vcresult (close true true true (getcstate v)).
+(* observed: [returns; seconds; tasks left; writer closed] *)
+Definition e_P12 (v : uval) : uval :=
+  vbool (P12 (mkCR (getbool (arg 0 v)) (getN (arg 1 v)) (getnat (arg 2 v)) (getbool (arg 3 v)))).
